@@ -333,6 +333,10 @@ def search_impl(prop, targets, obs, impl_traces, bdir, hdr, rng, tier, cov=None)
         packed = [[(t.pack_in(c), t.pack_out(x)) for c, x in zip(tr, ou)] for tr, ou in zip(trs, outs)]
         codes = eval_monitor(o, packed, bdir, hdr, f"Mon_{o.name}")
         total += len(packed)
+        if cov is not None:
+            cov.setdefault("monitors_over_impl_traces", []).append(
+                dict(obligation=o.name, target=t.name, traces=len(packed), cycles=sum(len(x) for x in packed),
+                     describe=o.describe))
         for k, c in enumerate(codes):
             if c != 0:
                 return dict(property=prop.PID, obligation=o.name, target=t.name, describe=o.describe,
